@@ -772,7 +772,11 @@ func emitTraces(scs []*rdScenario, events []kafka.VerifEvent) {
 		if sc.TruncIdx >= 0 {
 			tr = fmt.Sprintf("%d", sc.TruncN)
 		}
-		emit(fmt.Sprintf("rtrace sc=%s f=%d hwm=%d truncn=%s L=%s T=%s", k.topic, nth[k.topic], sc.Hwm, tr, layoutText(sc.Items),
-			strings.Join(traces[k], ";")), "ok")
+		bs := make([]string, len(sc.Budgets))
+		for i, b := range sc.Budgets {
+			bs[i] = strconv.Itoa(b)
+		}
+		emit(fmt.Sprintf("rtrace sc=%s f=%d hwm=%d truncn=%s budgets=%s L=%s T=%s", k.topic, nth[k.topic], sc.Hwm, tr,
+			strings.Join(bs, ","), layoutText(sc.Items), strings.Join(traces[k], ";")), "ok")
 	}
 }
